@@ -85,8 +85,10 @@ reg("C14", ["c14_varint.c"],
          "<= 11 (thorough) over {00,01,7f,80,81,ff} and 'randstr' random strings of length 0..11, each placed in an "
          "exact-size poisoned-arena block (size = used = N and size = N, used = 0; and as the unread rest of blocks "
          "with 1, 9 and 12 consumed octets in front) and given to all four buffer decoders and all four source "
-         "decoders. A signature is (generator, type, chunk); evaluations counts round "
-         "trips and decoder input strings.",
+         "decoders; every value of the round trip is also encoded into a buffer that "
+         "was used and drained before (offset = used = 1..7, exactly the maximum length free behind it: marks, memory "
+         "image, read-back through a buffer source and through the buffer decoder). A signature is (generator, type, "
+         "chunk); evaluations counts round trips and decoder input strings.",
     exhaustive={"quick": "all octet strings of length <= 7 over the 6-octet alphabet as decoder input",
                 "thorough": "all 2^32 values of u32 and s32; all octet strings of length <= 11 over the 6-octet alphabet"})
 
@@ -195,7 +197,7 @@ reg("C11", ["c11_pcrash.c"], level="fault_enumeration",
          "validated (and, at whole-write granularity, fetched) on a fresh instance. Faults: every medium access k of "
          "store, store_part, reset, validate, fetch, fetch_part fails (moves nothing and reports 0), transfers one "
          "octet short, or moves nothing and reports (size_t)-1, for every k. 'big': data sizes 300, 65536, 65539 with "
-         "auxiliary buffers 4096/65535/65536/size+1 (tears sampled around the 8- and 16-bit boundaries). A signature is a (configuration, aux size) pair; evaluations counts crash images judged plus "
+         "auxiliary buffers 4096/65535/65536/size+1 (tears sampled around the 8- and 16-bit boundaries); 'manyreads': crash images of stores and partial stores at 33000..70000 octets with no auxiliary buffer or one of 1-2 octets, where a checksum over the medium takes tens of thousands of accesses (writes recorded only, no fault injection). A signature is a (configuration, aux size) pair; evaluations counts crash images judged plus "
          "fault positions injected.",
     assumptions=["a torn write leaves a prefix of its octets on the medium; writes are not reordered",
                  "reading of 'never validate a mixed image silently' for a store whose data write fails or transfers short: the library must not go on and write a checksum over what it left (the medium may validate afterwards only as the previous or the new image, or by a chance collision with the checksum that was already there)",
@@ -210,7 +212,10 @@ reg("C01", ["c01_typed.c"],
          "types, else every single bit and its complement, every octet lane x {00,01,7f,80,ff} on zero and ones "
          "background, type extremes, both bounds +-2 neighbours, 18 float classes (zero, subnormal, normal, "
          "infinite, quiet/signalling NaN with payloads), seeded random. After every call the complete storage of "
-         "the area (register under test between a u16 and an s32 neighbour) is compared with the model. A signature "
+         "the area (register under test between a u16 and an s32 neighbour) is compared with the model. 'counts': "
+         "tables with 0, 1, 2 and 7 registers in one or two areas: every handle from the register count upwards "
+         "(count, count+1, 8, 16, 0xff, 0xffff, 2^16+count, 2^31, 2^32-1, ...) through register_set with a value of "
+         "every type, register_set_unsafe and register_get, storage compared after each. A signature "
          "is a configuration; evaluations counts values set.",
     exhaustive={"quick": "all values of 16-bit registers in every configuration",
                 "thorough": "all values of 16-bit registers in every configuration"})
@@ -218,8 +223,10 @@ reg("C01", ["c01_typed.c"],
 RT_FAMILY = ("tables from the small-scope family (seeded by index): 1-3 areas with bases from {0,1,5,0x100,0x7ffe,0xfff8,"
              "0x7ffffff0,0xffffff00}, sizes 1-8 words (one table in six has one area of 18-48 words densely packed with "
              "up to 46 registers, one in four an area left without registers on purpose, mostly joined to its "
-             "predecessor; the first twelve units of C02, C03 and C05 use curated layouts instead: register-less areas "
-             "behind, in front of and between populated ones, long dense areas, everything adjacent; every second "
+             "predecessor, and a third of those a mere reservation of addresses with neither callbacks nor memory; the "
+             "first twenty units of C02, C03 and C05 and the first twenty descriptions of every C04 unit use curated "
+             "layouts instead: register-less areas behind, in front of and between populated ones, long dense areas, "
+             "reserved windows at address 0 and between populated areas, everything adjacent; every second "
              "table is written with the REG_* / MAKE_*_AREA macros of register-table.h), gaps {0,0,1,3}; flags RW / "
              "read-only / write-only / skip-defaults; memory- or callback-backed "
              "(some callback areas without write callback); 16/32/64-bit unsigned, signed and float registers at every "
